@@ -686,3 +686,21 @@ Theorem generated_prune_leaves_without_taxa_nonrecursive_run :
   end = Some (T 0 None None None [T 1 None None (Some 2048) []; T 4 (Some 2) None (Some 1024) []]).
 Proof. exact C08W12NonRec.gen_plwt_nonrec_run. Qed.
 Print Assumptions generated_prune_leaves_without_taxa_nonrecursive_run.
+
+Theorem generated_filter_leaf_nodes_nonrecursive_refuses :
+  forall (fuel : nat) (keep : list Z) (ub su : bool) (h : heap) (t : tree),
+  (Heap.fuel_of h <= fuel)%nat ->
+  WF h -> abs h = Some t ->
+  C08Model.restrictG su (C08Model.keep_ids keep) C08Model.np_true C08Model.np_true t = None ->
+  exists h', to_hres (Tree_filter_leaf_nodes HG fuel (fun nd => memz nd keep) false ub su h) = HErr OtherErr h' /\ WF h'.
+Proof. exact C08W12NonRec.gen_filter_nonrec_refuses. Qed.
+Print Assumptions generated_filter_leaf_nodes_nonrecursive_refuses.
+
+(* non-vacuity of both _refuses theorems: a lone taxon-less seed; the refused calls leave the heap as it was *)
+Theorem generated_nonrecursive_refuses_run :
+  to_hres (Tree_prune_leaves_without_taxa HG 10 false false false C08W12NonRec.w12_lone)
+    = HErr OtherErr C08W12NonRec.w12_lone /\
+  to_hres (Tree_filter_leaf_nodes HG 10 (fun nd => memz nd []) false false false C08W12NonRec.w12_lone)
+    = HErr OtherErr C08W12NonRec.w12_lone.
+Proof. exact C08W12NonRec.w12_lone_refused. Qed.
+Print Assumptions generated_nonrecursive_refuses_run.
